@@ -909,6 +909,13 @@ def summarize(table: Table, **kwargs: ColExpr) -> Pipeable:
     uuids = [uuid.uuid1() for _ in names]
     new = copy.copy(table)
 
+    for uid in table._cache.partition_by:
+        if uid not in table._cache.uuid_to_name:
+            raise ValueError(
+                f"cannot summarize a table whose grouping column `{table._cache.cols[uid].ast_repr()}` is not "
+                "selected\nhint: Keep the grouping columns in `select` / `drop` or call `ungroup` first."
+            )
+
     preprocessed = []
     for name, val in zip(names, values, strict=True):
         try:
